@@ -219,7 +219,26 @@ def gen_plan(run_seed, tier="quick", profile="tiny", focus=None):
 
 
 def directed_plans(prop, profile):
-  return []
+  """Batch scale for BatchDLOfDifferences (a change seeded in round 6 scanned
+  the comparison list in blocks of 2^16 and lost one entry per block): a
+  history of more than 2^17 far-apart keys given as an arithmetic progression,
+  new keys planted next to the entries around every power of two from 2^12."""
+  if profile != "named":
+    return []
+  stride = 2**200 + 0x1234567
+  count = 2**17 + 11
+  planted = []
+  for e in (0, 12, 14, 15, 16, 17):
+    for pos in ((2**e - 1, 2**e, 2**e + 1) if e else (0, 7)):
+      planted.append([pos, 5 if (pos + e) % 2 else -3])
+  planted.append([2**16 + 2**15, 9])
+  planted.append([count - 1, 1])
+  plan = {"engine": "B", "property": PROPERTY, "profile": "named",
+          "curves": [{"name": "secp256r1"}],
+          "ops": [{"op": "diffs_ap", "curve": 0, "stride": stride,
+                   "count": count, "planted": planted, "far": [stride // 2],
+                   "max_diff": 1024}]}
+  return [("directed-long-history", plan)]
 
 
 # ----------------------------------------------------------------------------
@@ -352,6 +371,20 @@ def _segment(plan, start):
         else:
           out = lib.BatchDLOfDifferences(pts, max_diff=op["max_diff"])
         ev["res"] = list(out)
+      elif kind == "diffs_ap":
+        # the history list itself is laid out with the library's own
+        # PointSequence (one addition per entry); the entries next to the
+        # planted keys are re-computed by the independent arithmetic
+        st = op["stride"]
+        hist = lib.PointSequence(lib.Multiply(lib.g, st), op["count"] + 1)[1:]
+        for pos, _ in op["planted"]:
+          if tuple(int(c) for c in hist[pos]) != tuple(
+              int(c) for c in _pt(m, (pos + 1) * st)):
+            raise core.HarnessError("history entry %d is not %d*stride*G" %
+                                    (pos, pos + 1))
+        pts = [_pt(m, (pos + 1) * st + dl) for pos, dl in op["planted"]]
+        pts += [_pt(m, d) for d in op["far"]]
+        ev["res"] = list(lib.BatchDLOfDifferences(pts, hist, op["max_diff"]))
       elif kind == "mulg":
         out = lib.BatchMultiplyG(op["scalars"])
         ev["res"] = [[None if c is None else int(c) for c in p] for p in out]
@@ -472,6 +505,23 @@ def judge(plan, events, segs):
               "table %d, cached table before %d -> %s" %
               (ck, order, x, n, ln, ts, cached, res),
               {"curve": plan["curves"][op["curve"]]}))
+    elif kind == "diffs_ap":
+      res = ev["res"]
+      probe("long_history_call")
+      for a, (pos, dl) in enumerate(op["planted"]):
+        st["planted_pairs"] += 1
+        st["states"].add(("diff_ap", pos.bit_length(), dl > 0))
+        if res[a] is None:
+          viol.append(_v(
+              "difference_missed", i, "long_history",
+              "BatchDLOfDifferences on %s: a new key differs by %d from entry "
+              "%d of a history of %d keys (max_diff=%d) but is not flagged" %
+              (ck, dl, pos, op["count"], op["max_diff"])))
+      for a in range(len(op["planted"]), len(res)):
+        if res[a] is not None:
+          viol.append(_v("far_key_flagged", i, "long_history",
+                         "a key far from every history entry is flagged: %r" %
+                         (res[a],)))
     elif kind == "diffs":
       ds, oth, md = op["ds"], op["other"], op["max_diff"]
       pts = [m.mul(d) for d in ds]
